@@ -21,6 +21,7 @@ import (
 	"github.com/els0r/goProbe/v4/pkg/goDB/storage/gpfile"
 	"github.com/els0r/goProbe/v4/pkg/types"
 	"github.com/els0r/goProbe/v4/pkg/types/hashmap"
+	"github.com/els0r/goProbe/v4/pkg/verifhook"
 	"github.com/els0r/telemetry/logging"
 	"github.com/fako1024/gotools/bitpack"
 )
@@ -253,6 +254,18 @@ func bubble(s *Script, dir string, res *Result) {
 		}
 	}
 	sleepUntil(s.StartOffset)
+	if s.HoldDrain {
+		// owned schedule: a capture that is about to drain its local buffer yields for 100 ns of bubble time, so that
+		// every other goroutine (the manager pausing the next interface, its source delivering window packets) runs
+		// first as far as it can
+		verifhook.SetStepFn(func(point string) {
+			if strings.HasPrefix(point, "capture.drain ") {
+				run.note("drain-held")
+				time.Sleep(100 * time.Nanosecond)
+			}
+		})
+		defer verifhook.SetStepFn(nil)
+	}
 
 	ctx, cancel := context.WithCancel(context.Background())
 	cfg := &config.Config{DB: config.DBConfig{Path: dir, EncoderType: s.Encoder}, Interfaces: config.Ifaces{}}
@@ -286,6 +299,18 @@ func bubble(s *Script, dir string, res *Result) {
 		synctest.Wait()
 		if err := run.failed(); err != nil {
 			return false
+		}
+		for k := 0; s.HoldDrain && k < 4; k++ {
+			// a capture may still be inside its held drain
+			busy := false
+			for _, n := range s.Ifaces {
+				busy = busy || !run.srcs[n].isParked()
+			}
+			if !busy {
+				break
+			}
+			time.Sleep(150 * time.Nanosecond)
+			synctest.Wait()
 		}
 		for _, n := range s.Ifaces {
 			if !run.srcs[n].isParked() {
